@@ -195,7 +195,7 @@ def check_err_origin(rep, crate, cfgname):
     return n
 
 
-def _selection_table(kind, lam2):
+def _selection_table(kind, lam2, try_order=()):
     """which item a pairwise combinator keeps, as a table over (left is Ok, right is Ok) -> value kept.
 
     Iterator::max_by(cmp) keeps the left (accumulated) item iff cmp says Greater; Iterator::reduce(f) keeps f(left, right).
@@ -248,11 +248,25 @@ def _selection_table(kind, lam2):
             return ('ite', c, x, y)
         return leaf(t, facts)
 
+    def with_try(facts):
+        """`x?` inside the combining closure: the closure returns Err(e) at the first `?` (in evaluation order) applied to an
+        Err item, otherwise `x?` is the Ok payload"""
+        tries = {y[1] for y in T.subterms(body) if isinstance(y, tuple) and len(y) == 2 and y[0] == 'try' and y[1] in (a, b)}
+        if not tries:
+            return None
+        order = [x for x in try_order if x in tries] + sorted(x for x in tries if x not in try_order)
+        for x in order:
+            i = 0 if x == a else 1
+            if okc[i] not in facts:
+                return ('err', err[i])
+        return walk(T.substitute(body, {('try', a): pay[0], ('try', b): pay[1]}), facts)
+
     table = {}
     for la in (True, False):
         for rb in (True, False):
             facts = [okc[0] if la else T.tnot(okc[0]), okc[1] if rb else T.tnot(okc[1])]
-            table[(la, rb)] = T.canon(walk(body, facts), minmax=True)
+            v = with_try(facts) if kind in ('reduce', 'fold') else None
+            table[(la, rb)] = T.canon(v if v is not None else walk(body, facts), minmax=True)
     want = {(True, True): T.canon(('ok', T.tmax(pay[0], pay[1])), minmax=True),
             (True, False): T.canon(('err', err[1])), (False, True): T.canon(('err', err[0])), (False, False): T.canon(('err', err[0]))}
     return table, want
@@ -267,12 +281,16 @@ def check_max_response_time(rep, crate):
     ev = Evaluator(crate)
     top = T.unroot(ev.eval_entry(body))
     ok_shape = isinstance(top, tuple) and top[0] == 'optor' and isinstance(T.unroot(top[1]), tuple) and T.unroot(top[1])[0] in ('max_by', 'reduce')
-    if not ok_shape:
+    # fold(init, f) applies f also to (init, first item); with init = Ok(0) and the selection table below (Ok,Ok keeps the
+    # maximum -- payloads are >= 0 --, Ok,Err keeps the right error) f(Ok(0), x) = x, i.e. reduce(f).unwrap_or(Ok(0))
+    is_fold = isinstance(top, tuple) and top[0] == 'fold' and len(top) == 4 and isinstance(top[3], tuple) and top[3][0] == 'lam2'
+    if not ok_shape and not is_fold:
         rep.bad('FP-MAX', 'FP-MAX:shape', where, f'max_response_time computes {T.show(top)[:200]}',
-                'a pairwise selection (max_by / reduce) over all items, Ok(0) if there are none', fn=MAXRT)
+                'a pairwise selection (max_by / reduce / fold from Ok(0)) over all items, Ok(0) if there are none', fn=MAXRT)
         return
-    mb = T.unroot(top[1])
+    mb = T.unroot(top[1]) if ok_shape else ('fold', top[1], top[3])
     dflt = top[2]
+    try_order = [T.unroot(t[2]) for t in ev.trace if t[0] == 'try']
     if dflt == ('ok', T.const(0)):
         rep.ok('FP-MAX', 'FP-MAX:empty', where, 'an empty sequence yields Ok(0)', fn=MAXRT)
     else:
@@ -281,7 +299,7 @@ def check_max_response_time(rep, crate):
         rep.ok('FP-MAX', 'FP-MAX:all', where, 'the selection sees every item of the sequence (no adaptor in between)', fn=MAXRT)
     else:
         rep.bad('FP-MAX', 'FP-MAX:all', where, f'maximum is taken over {T.show(mb[1])}', 'the whole parameter sequence', fn=MAXRT)
-    table, want = _selection_table(mb[0], mb[2])
+    table, want = _selection_table(mb[0], mb[2], try_order)
     names = {(True, True): 'Ok,Ok', (True, False): 'Ok,Err', (False, True): 'Err,Ok', (False, False): 'Err,Err'}
     wrong = [k for k in want if table[k] != want[k]]
     if not wrong:
